@@ -505,6 +505,14 @@ func ruleR02bCompiler(c *Ctx) {
 						case *ssa.ChangeType:
 							walk(y.X, d+1)
 						case *ssa.Call:
+							// a helper of the package that returns the list (`p.sortedSources()`)
+							if g := staticCallee(y); g != nil && len(g.Blocks) > 0 && fnPkgPath(origin(g)) == pkgCompiler {
+								for _, gb := range g.Blocks {
+									if ret, ok := gb.Instrs[len(gb.Instrs)-1].(*ssa.Return); ok && len(ret.Results) > 0 {
+										walk(ret.Results[0], d+1)
+									}
+								}
+							}
 							if bi, ok := y.Call.Value.(*ssa.Builtin); ok && bi.Name() == "append" {
 								walk(y.Call.Args[0], d+1)
 								for _, e := range variadicElems(y.Call.Args[1]) {
